@@ -978,7 +978,15 @@ func writeIfChanged(path, content string) {
 func main() {
 	repo := flag.String("repo", "/repo", "repository root")
 	out := flag.String("out", "", "directory for RoGen/*.lean")
+	opsOnly := flag.Bool("opgen", false, "print the translated operator machines (OpsGen.lean) to stdout and exit")
 	flag.Parse()
+	if *opsOnly {
+		if err := runOpgen(*repo, ""); err != nil {
+			fmt.Fprintln(os.Stderr, "opgen:", err)
+			os.Exit(1)
+		}
+		return
+	}
 	var facts []OpFact
 	files, _ := filepath.Glob(filepath.Join(*repo, "operator_*.go"))
 	sort.Strings(files)
@@ -1031,6 +1039,11 @@ func main() {
 			os.Exit(1)
 		}
 		writeIfChanged(filepath.Join(*out, "ChanShape.lean"), chanShapeLean(chanShapes(*repo)))
+		// the operator translator (opgen.go): lean/RoGen/OpsGen.lean
+		if err := runOpgen(*repo, *out); err != nil {
+			fmt.Fprintln(os.Stderr, "opgen:", err)
+			os.Exit(1)
+		}
 	} else {
 		js, _ := json.MarshalIndent(facts, "", " ")
 		fmt.Println(string(js))
